@@ -60,6 +60,9 @@ def replay(prop, path):
         exp = [s[2] for s in r["setup"]] + [r["case"]["out"], r["case"]["has"]]
         print("  observed:", g.get("out"), "expected:", exp)
         still = g.get("out") != exp
+    elif "vector" in r and "tree" in r:                              # command line layer
+        import cli_engine
+        still = cli_engine.replay_vector(prop, r, wd)
     if still is None:
         print("  this kind of replay file is re-examined by running the whole check again")
         import importlib
